@@ -15,7 +15,7 @@ props = [json.loads(l) for l in open(os.path.join(VERIF, "properties.jsonl"))]
 claimed = specs.properties()
 
 hook_commits = subprocess.run(["git", "-C", "/repo", "log", "--format=%H %s"], capture_output=True, text=True).stdout.splitlines()
-hook_commits = [l.split()[0] for l in hook_commits if "verif hooks" in l]
+hook_commits = [l.split()[0] for l in hook_commits if "verif hook" in l]
 
 checks = []
 na = []
